@@ -1062,7 +1062,7 @@ def run(ctx):
     try:
         first = state_cases(ctx, "early")
         fixed_cases(ctx)
-        n_tab = 1300 if quick else 1800
+        n_tab = 1300 if quick else 900
         for i in range(n_tab):
             t, route, hist = gen_table(rng, quick)
             ctx.count("history=" + hist)
@@ -1122,9 +1122,9 @@ def run(ctx):
                 rcv, oth = del_receiver()
                 check_del(ctx, rcv, rng.choice([None, "default"]),
                           rng.choice(["sample", "observation", "whole", "bogus"]), (route, hist), oth)
-        run_parse_stream(ctx, 4000 if quick else 30000)
-        run_raw_stream(ctx, 800 if quick else 5000)
-        n_cli = 700 if quick else 2500
+        run_parse_stream(ctx, 4000 if quick else 15000)
+        run_raw_stream(ctx, 800 if quick else 2500)
+        n_cli = 700 if quick else 1200
         for i in range(n_cli):
             friendly = (i % 4 == 3)
             if friendly:
@@ -1145,7 +1145,7 @@ def run(ctx):
                 out_json = rng.random() < (0.2 if friendly else 0.7)
                 in_fmt = "json" if (rng.random() < 0.7 or not hdf5_faithful(t)) else "hdf5"
                 check_cli_command(ctx, t.copy(), files, opts, facts, out_json, in_fmt, (route, hist))
-        run_wide(ctx, 6 if quick else 24)
+        run_wide(ctx, 6 if quick else 12)
         if state_cases(ctx, "late") != first:
             ctx.diverge({"probe": DEFAULT_PROBE[0]}, "the default call answers differently at the end of the run")
     finally:
